@@ -432,6 +432,66 @@ def word_split_conserves_bits(chk, dirs, rule='word-split-conserves-bits', floor
     chk.ok(rule, 'every fully re-split accumulator word under %s keeps all its bits (%d words; controls matched)' % (', '.join(dirs), n), dirs[0], nontrivial=False)
 
 
+def _or_scan_short(F):
+    """(scans, findings): loops `for (i = 0; i < K; i ++) acc |= A[i]` over a local array A of N elements with constant K: K must be N"""
+    import re as _re
+    scans, bad = 0, []
+    for i in F.insts.values():
+        if i['op'] != 'or':
+            continue
+        ops = [F.strip_casts(o) for o in i['ops']]
+        ld = next((F.insts[o['v']] for o in ops if o['k'] == 'i' and F.insts[o['v']]['op'] == 'load'), None)
+        acc = next((F.insts[o['v']] for o in ops if o['k'] == 'i' and F.insts[o['v']]['op'] == 'phi'), None)
+        if ld is None or acc is None:
+            continue
+        g = F.strip_casts(ld['ops'][0])
+        if g['k'] != 'i' or F.insts[g['v']]['op'] != 'getelementptr':
+            continue
+        g = F.insts[g['v']]
+        base = F.strip_casts(g['ops'][0])
+        if base['k'] != 'i' or F.insts[base['v']]['op'] != 'alloca' or g.get('off') or len(g.get('var') or []) != 1:
+            continue
+        A = F.insts[base['v']]
+        m = _re.match(r'\[(\d+) x ', A.get('aty') or '')
+        iv = F.strip_casts(g['var'][0][0])
+        if not m or iv['k'] != 'i' or F.insts[iv['v']]['op'] != 'phi':
+            continue
+        ph = F.insts[iv['v']]
+        if not any(o['k'] == 'c' and o['v'] == 0 for o in ph['ops']):
+            continue
+        bounds = [c['ops'][1]['v'] for c in F.insts.values() if c['op'] == 'icmp' and c['pred'] in ('ult', 'slt') and F.strip_casts(c['ops'][0]) == {'k': 'i', 'v': ph['id']}
+                  and c['ops'][1]['k'] == 'c']
+        if len(bounds) != 1:
+            continue
+        scans += 1
+        if bounds[0] != int(m.group(1)):
+            bad.append((i, bounds[0], int(m.group(1))))
+    return scans, bad
+
+
+def or_scan_covers_array(chk, dirs, rule='or-scan-covers-array', floor=1):
+    """a verdict accumulated as `bad |= t[i]` over a local limb array (is the curve-equation residual zero? are two values equal?)
+    must look at every limb: a loop bound one short ignores the top limb, and values that differ there only are accepted"""
+    C = _control()
+    if not _or_scan_short(C.func('lintbad_or_scan'))[1] or _or_scan_short(C.func('lintgood_or_scan'))[1] or not _or_scan_short(C.func('lintgood_or_scan'))[0]:
+        raise AnalysisBroken('lint controls for %s: positive not matched or negative matched' % rule)
+    P = wmw.program()
+    n = 0
+    for (un, fn), F in sorted(P.static.items()):
+        f = F.file().replace(build.REPO + '/', '')
+        if not any(f.startswith(d) for d in dirs):
+            continue
+        k, bad = _or_scan_short(F)
+        n += k
+        for i, b, sz in bad:
+            chk.violation(rule, '%s: an OR-scan over a local array covers all its elements' % fn, F.where(i),
+                          'the loop runs to %d, the array has %d elements: the remaining limbs never reach the verdict' % (b, sz), key='%s %s %s' % (rule, fn, i.get('line')))
+    chk.count('OR-scans over local arrays examined by %s' % rule, n)
+    if n < floor:
+        raise AnalysisBroken('%s: only %d scans under %s (floor %d)' % (rule, n, dirs, floor))
+    chk.ok(rule, 'every OR-scan over a local array under %s covers the whole array (%d scans; controls matched)' % (', '.join(dirs), n), dirs[0], nontrivial=False)
+
+
 def _ignored_results():
     """{(file, function, callee): number of call sites whose returned value has no use}, and per-callee used counts"""
     import collections
